@@ -37,6 +37,11 @@ def probe_f19(run, har):
 def gen_c06(rng, **kw):
     """scheduler scenarios (every fifth possibly cyclic), and - two in five - histories whose manifest is a step's output: the
     Work of the regeneration phase is reused, so the traversal meets steps that are already settled"""
+    if rng.random() < 0.1:
+        # a reported dependency that is itself generated (no declared path): the loop must not wait for it, nor give up
+        import world
+        steps, invs, info = world.gen_history_gendep(rng)
+        return "\n".join(steps), [{k: v for k, v in m.items() if k != "files"} for m in invs], info
     if rng.random() < 0.4:
         import world
         steps, invs, info = world.gen_history(rng, with_regen=True, with_pools=True, nmax=8)
